@@ -312,8 +312,8 @@ def _real(req, plain, mk, disturb=False):
     from . import real_mod, real_rt, real_disc
     if op.startswith('rt:'):
         from . import real_decl
-        from . import real_r7, real_r8
-        return (real_rt.RT.get(op[3:]) or real_decl.RT.get(op[3:]) or real_r7.RT.get(op[3:]) or real_r8.RT.get(op[3:]) or real_disc.RT[op[3:]])(req)
+        from . import real_r7, real_r8, real_r9
+        return (real_rt.RT.get(op[3:]) or real_decl.RT.get(op[3:]) or real_r7.RT.get(op[3:]) or real_r8.RT.get(op[3:]) or real_r9.RT.get(op[3:]) or real_disc.RT[op[3:]])(req)
     if op in real_disc.OPS:
         return real_disc.OPS[op](req)
     if op in real_mod.OPS:
